@@ -184,10 +184,10 @@ class Session(object):
     """One real supp.remote.Environment + its server child.  Every call is bracketed by a
     call/return log entry and by counters on the client's dumps/loads (the wire boundary)."""
 
-    def __init__(self, logfile=None):
+    def __init__(self, logfile=None, env=None):
         from supp import remote
         self.remote = remote
-        self.env = remote.Environment(logfile=logfile)
+        self.env = remote.Environment(env=env, logfile=logfile)
         self.log = []
         self.sent = []
         self.received = []
